@@ -7,7 +7,9 @@ versions); each snapshot also fixes what the driver believes about every host (u
 unknown).  The wait is entered three ways: ControlConnection.wait_for_schema_agreement called
 from the application thread, and a DDL request (RESULT schema_change) through a session with
 schema metadata enabled / disabled - also with the agreement poll cut short at a chosen poll by
-error answers, by a reset of the connection carrying the poll, or by the client request timeout.  Every poll the driver makes is recorded at the node with
+error answers, by a reset of the connection carrying the poll, or by the client request timeout;
+in other episodes some polls (varying positions and numbers) are never answered and run into the
+control-connection request timeout, with convergence before or after the deadline.  Every poll the driver makes is recorded at the node with
 its virtual time and exactly the rows it was served; the verdict is recomputed from those polls.
 """
 import random
@@ -151,6 +153,11 @@ def run_history(seed):
         if fault and ep['fault_state'] == 1 and is_local and cstate.conn.sim_id == ep['fault_conn']:
             ep['fault_state'] = 2
             return node.error(cstate, req, 'server', 'scripted failure of the schema poll') if fault == 'error' else ('silence',)
+        if is_peers and len(ep['polls']) in ep.get('unanswered', ()):
+            # this poll is never answered: the driver's request times out (ControlConnection timeout, clamped to what is left of the wait)
+            ep['polls'].append({'t': env.world.now, 'node': node.address, 'snap': idx, 'rows': [], 'states': dict(snap['states']),
+                                'local': 'pending', 'unanswered': True})
+            return ('silence',)
         if is_peers:
             reaction, served = peers_answer(node, cstate, req, pm, snap)
             ep['polls'].append({'t': env.world.now, 'node': node.address, 'snap': idx, 'rows': served, 'states': dict(snap['states']),
@@ -162,6 +169,9 @@ def run_history(seed):
             return None
         if poll['snap'] != idx:
             ep['torn'] = True
+        if poll.get('unanswered'):
+            poll['local'] = None
+            return ('silence',)
         ver = snap['versions'][node.address]
         poll['local'] = ver
         return node.rows(cstate, req, [('schema_version', T('uuid'))], [[ver]], 'system', 'local')
@@ -205,10 +215,12 @@ def run_history(seed):
              'polls_with_down_peer_differing': 0, 'polls_with_unknown_peer_differing': 0, 'polls_with_stranger_differing': 0,
              'polls_without_any_version': 0, 'agreement_after_budget': 0, 'agreement_on_later_poll': 0,
              'ddl_fault': 0, 'ddl_timeout': 0, 'faults_fired': 0, 'faults_fired_reset': 0, 'timeouts_fired_while_polling': 0,
-             'cut_short_without_any_agreeing_poll': 0, 'polls_decided_by_peer_on_non_default_port': 0}
+             'cut_short_without_any_agreeing_poll': 0, 'polls_decided_by_peer_on_non_default_port': 0, 'polls_unanswered': 0,
+             'episodes_with_unanswered_poll': 0, 'episodes_unanswered_poll_no_agreement_in_budget': 0}
     ep_log = []
     with env:
-        cluster = env.cluster(protocol_version=proto)
+        cc_timeout = rng.choice([0.25, 0.45, 0.65])        # per-request timeout of the polls (Cluster.control_connection_timeout)
+        cluster = env.cluster(protocol_version=proto, control_connection_timeout=cc_timeout)
         session = cluster.connect()
         env.world.settle()
         with env.world.inspect():
@@ -242,6 +254,9 @@ def run_history(seed):
             if mode.startswith('ddl-fault'):
                 ep['fault'] = 'error' if mode == 'ddl-fault-error' else 'reset'
                 ep['fault_at'] = rng.choice([0, 1, 1, 2, 3])
+            if not cut_short and rng.random() < 0.4:
+                # some polls are never answered, in varying positions and numbers
+                ep['unanswered'] = set(rng.sample(range(0, 7), rng.randint(1, 3)))
             apply_states(schedule[0][1])
             done = {}
             if mode.startswith('direct'):
@@ -320,8 +335,14 @@ def run_history(seed):
                 continue
             stats['polls'] += len(polls)
             t0 = ep['t0']
-            agreed = [len(poll_versions(p, known)) == 1 for p in polls]
+            agreed = [not p.get('unanswered') and len(poll_versions(p, known)) == 1 for p in polls]
+            n_unanswered = sum(1 for p in polls if p.get('unanswered'))
+            stats['polls_unanswered'] += n_unanswered
+            if n_unanswered:
+                stats['episodes_with_unanswered_poll'] += 1
             for p in polls:
+                if p.get('unanswered'):
+                    continue
                 ref = poll_versions(p, known)
                 if poll_versions(p, known, 'count-down') != ref:
                     stats['polls_with_down_peer_differing'] += 1
@@ -338,7 +359,8 @@ def run_history(seed):
             wit = {'seed': seed, 'episode': e, 'mode': mode, 'budget': budget, 'proto': proto, 'peers_v2': v2, 'known_hosts': sorted(known),
                    'verdict': verdict, 'returned_after': round(t_ret - t0, 6),
                    'polls': [{'at': round(p['t'] - t0, 6), 'node': p['node'], 'local': str(p['local']), 'rows': [(a, str(v)) for a, v in p['rows']],
-                              'states': p['states'], 'single_version': ag} for p, ag in zip(polls, agreed)][-12:]}
+                              'states': p['states'], 'single_version': ag, 'answered': not p.get('unanswered')} for p, ag in zip(polls, agreed)][-12:],
+                   'control_connection_timeout': cc_timeout}
             if verdict is None:
                 raise RuntimeError("wait_for_schema_agreement returned None (shutdown?)")
             ddl_off_masked = False
@@ -351,7 +373,9 @@ def run_history(seed):
                 pass
             elif verdict and not agreed[-1]:
                 last = polls[-1]
-                if not poll_versions(last, known):
+                if last.get('unanswered'):
+                    mech = 'agreement-reported-on-an-unanswered-poll'
+                elif not poll_versions(last, known):
                     mech = 'agreement-reported-without-any-version'
                 elif len(poll_versions(last, known, 'drop-unknown')) == 1:
                     mech = 'agreement-reported-ignoring-peer-of-unknown-state'
@@ -372,21 +396,37 @@ def run_history(seed):
                 viol.append((mech, 'verdict False but poll %d (%.2fs) served a single version' % (i, polls[i]['t'] - t0), wit))
             elif verdict and any(agreed[:-1]):
                 viol.append(('polled-on-after-agreement', 'a poll before the last one already served a single version', wit))
+            # the wait budget on the virtual clock: no poll starts once the configured wait has elapsed (so no verdict rests on a later snapshot),
+            # and an unanswered poll is given up after min(request timeout, what is left of the wait)
+            if polls[-1]['t'] - t0 >= budget + 1e-3:
+                viol.append(('polled-beyond-the-configured-wait', 'a poll %.3fs after the start, configured wait %.1fs%s' % (
+                    polls[-1]['t'] - t0, budget, '; the verdict True rests on it' if verdict and agreed[-1] else ''), wit))
+            for i, p in enumerate(polls):
+                if p.get('unanswered'):
+                    nxt = polls[i + 1]['t'] if i + 1 < len(polls) else t_ret
+                    allowed = min(cc_timeout, max(0.0, budget - (p['t'] - t0)))
+                    if nxt - p['t'] > allowed + 0.01:
+                        viol.append(('poll-request-timeout-exceeds-remaining-wait', 'the unanswered poll at %.3fs was waited for %.3fs; request timeout %.2fs, %.3fs of the %.1fs wait were left' % (
+                            p['t'] - t0, nxt - p['t'], cc_timeout, max(0.0, budget - (p['t'] - t0)), budget), wit))
+                        break
             if not verdict and not expected:
                 if t_ret - t0 < budget - 1e-3:
                     viol.append(('stopped-polling-before-the-wait-elapsed', 'gave up after %.3fs with %d polls, the configured wait is %.1fs' % (
                         t_ret - t0, len(polls), budget), wit))
-                gaps = [b['t'] - a['t'] for a, b in zip(polls, polls[1:])] + [t_ret - polls[-1]['t']]
-                if max(gaps) > POLL + 0.01:
-                    viol.append(('polling-gap-longer-than-interval', 'gap of %.3fs between polls / before giving up' % max(gaps), wit))
-                if polls[-1]['t'] - t0 >= budget + 1e-3:
-                    viol.append(('polled-beyond-the-configured-wait', 'a poll %.3fs after the start, configured wait %.1fs' % (polls[-1]['t'] - t0, budget), wit))
+                if t_ret - t0 > budget + POLL + 0.01:
+                    viol.append(('gave-up-long-after-the-wait-elapsed', 'reported disagreement %.3fs after the start, the configured wait is %.1fs' % (t_ret - t0, budget), wit))
+                ends = [b['t'] for b in polls[1:]] + [t_ret]
+                gaps = [(e_ - a['t']) - (min(cc_timeout, max(0.0, budget - (a['t'] - t0))) if a.get('unanswered') else POLL) for a, e_ in zip(polls, ends)]
+                if max(gaps) > 0.01:
+                    viol.append(('polling-gap-longer-than-interval', 'a gap between polls / before giving up is %.3fs longer than the poll interval (or the request timeout of an unanswered poll)' % max(gaps), wit))
             if expected:
                 stats['verdict_true'] += 1
                 if agreed.index(True) > 0:
                     stats['agreement_on_later_poll'] += 1
             else:
                 stats['verdict_false'] += 1
+                if n_unanswered:
+                    stats['episodes_unanswered_poll_no_agreement_in_budget'] += 1
                 # would a later snapshot have agreed?
                 if any(len(poll_versions({'local': s['versions'][polls[0]['node']], 'rows': [(a, s['versions'][a]) for a in addrs if a != polls[0]['node']],
                                           'states': s['states']}, known)) == 1 for o, s in schedule if o >= budget):
@@ -445,7 +485,9 @@ def run(ctx):
                      ("poll_faults_fired", 'faults_fired'), ("poll_faults_fired_connection_reset", 'faults_fired_reset'),
                      ("client_timeouts_fired_while_polling", 'timeouts_fired_while_polling'),
                      ("ddl_cut_short_without_any_agreeing_poll", 'cut_short_without_any_agreeing_poll'),
-                     ("polls_decided_by_peer_on_non_default_native_port", 'polls_decided_by_peer_on_non_default_port')):
+                     ("polls_decided_by_peer_on_non_default_native_port", 'polls_decided_by_peer_on_non_default_port'),
+                     ("polls_unanswered_until_request_timeout", 'polls_unanswered'), ("episodes_with_unanswered_poll", 'episodes_with_unanswered_poll'),
+                     ("episodes_with_unanswered_poll_and_no_agreement_within_wait", 'episodes_unanswered_poll_no_agreement_in_budget')):
             ctx.count(k, stats[v])
         seen = set()
         for mech, what, wit in viol:
@@ -463,4 +505,5 @@ def run(ctx):
                           "polls_where_a_host_not_in_metadata_differs": 50, "polls_without_any_counting_version": 20,
                           "episodes_agreement_only_after_budget": 30, "episodes_agreement_on_a_later_poll": 50,
                           "poll_faults_fired": 60, "poll_faults_fired_connection_reset": 10, "client_timeouts_fired_while_polling": 60,
-                          "ddl_cut_short_without_any_agreeing_poll": 100, "polls_decided_by_peer_on_non_default_native_port": 100}
+                          "ddl_cut_short_without_any_agreeing_poll": 100, "polls_decided_by_peer_on_non_default_native_port": 100,
+                          "polls_unanswered_until_request_timeout": 200, "episodes_with_unanswered_poll_and_no_agreement_within_wait": 60}
